@@ -946,10 +946,14 @@ theorem findRow_spec : ∀ (rs : List Row) (k0 i : Nat) (r : Row) (rest : Bytes)
     simp; omega
 
 theorem rows_diverge : allDiverge rows = true := by decide +kernel
-/-- only the value call (row 75) has a keyword that another row extends with `void ` -/
+/-- only the value calls have a keyword that another row extends with `void ` -/
 theorem rows_void : (List.range rows.length).all (fun k => match rows[k]? with
-    | some r => rows.all (fun q => !(q.pre == r.pre ++ sVoidSp)) || k == 75
+    | some r => rows.all (fun q => !(q.pre == r.pre ++ sVoidSp)) || valueCallRows.contains k
     | none => true) = true := by decide +kernel
+/-- and they all have the slots `T callee(args)` -/
+theorem rows_valuecall : valueCallRows.all (fun k => match rows[k]? with
+    | some r => decide (r.slots = [.ty, .lit [32], .callee, .cargs])
+    | none => false) = true := by decide +kernel
 theorem rows_fmt : rows.all (fun r => fmtOK r.slots) = true := by decide +kernel
 /-- no row starts with `%` (an instruction line that starts with `%` carries a result) and none is empty -/
 theorem rows_head : rows.all (fun r => match r.pre with | [] => false | c :: _ => c != 37) = true := by decide +kernel
@@ -971,17 +975,20 @@ theorem call_void_ok (useHex : Int → Bool) (i : Inst) (r : Row) (hr : rows[i.r
   simp only [hr, Bool.or_eq_true, List.all_eq_true, Bool.not_eq_true', beq_iff_eq] at this
   rcases this with h | h
   · have := h q hq; simp [he] at this
-  · have h75 : rows[75]? = some ⟨true, [99, 97, 108, 108, 32], .void, [.ty, .lit [32], .callee, .cargs], .loadTy, false⟩ := rfl
-    rw [h, h75] at hr
-    injection hr with hr
-    subst hr
+  · have hsl : r.slots = [.ty, .lit [32], .callee, .cargs] := by
+      have := List.all_eq_true.mp rows_valuecall irow (by simpa using h)
+      simp only [hr, decide_eq_true_eq] at this
+      exact this
+    obtain ⟨rh, rp, rc, rs, rr, rt⟩ := r
+    simp only at hsl hm he ⊢
+    subst hsl
     cases hm with
     | ty t hm1 => cases hm1 with
       | lit _ hm2 => cases hm2 with
         | callee o ho hm3 => cases hm3 with
           | cargs ixs hm4 =>
             have := matches_nil _ hm4; subst this
-            simp only [callTyOK, h, bne_self_eq_false, Bool.false_or, Bool.not_eq_true'] at hc
+            simp only [callTyOK, h, Bool.not_true, Bool.false_or, Bool.not_eq_true'] at hc
             simp only [printSlots, List.append_nil]
             have e : tyString t ++ ([32] ++ (operandString useHex calleeTy o ++ cargsString useHex ixs))
                 = (tyString t ++ [32]) ++ (operandString useHex calleeTy o ++ cargsString useHex ixs) := by simp
